@@ -36,6 +36,9 @@ def writeEm (conv : α → β) (d : α) (t : Table α) : EmFile β :=
   { dimX := genColumns.length, dimY := t.rows.length, dimZ := 1,
     data := t.rows.flatMap (fun r => genColumns.map (fun f => conv (cell d t.cols r f))) }
 
+/-- the cell conversion of the writer: `fillna(0.0)` then `astype(np.single)` -/
+def conv (isNaN : α → Bool) (r32 : α → β) (zero : α) (v : α) : β := if isNaN v then r32 zero else r32 v
+
 /-- the code as it was before the repair: `self.df.fillna(0).to_numpy()` — table column order -/
 def writeEmAsIs (conv : α → β) (t : Table α) : EmFile β :=
   { dimX := t.cols.length, dimY := t.rows.length, dimZ := 1,
